@@ -93,7 +93,7 @@ def r3(ctx):
             return False  # `let mut v = normalize_header_value(..); edit(&mut v); push(v)`
         return bool(od and od[0] == "def" and od[1]["kind"] == "call" and re.search(r"canonical::normalize_header_value$", od[1]["term"]["callee"])
                     and b.slice_op(od[1]["term"]["args"][0]).has_call(r"HeaderValue::as_bytes$")
-                    and not [c for c in b.slice_op(od[1]["term"]["args"][0]).callee_names() if not re.search(r"HeaderValue::as_bytes$|Iterator::next$|IntoIterator::into_iter$|HeaderMap::<T>::iter$|Deref::deref$|AsRef::as_ref$", c)])
+                    and not [c for c in b.slice_op(od[1]["term"]["args"][0]).callee_names() if not re.search(r"HeaderValue::as_bytes$|Iterator::next$|IntoIterator::into_iter$|HeaderMap::<T>::iter$|Deref::deref$|AsRef::as_ref$|HeaderMap::<T>::get_all$|header::GetAll::<'a, T>::iter$|HeaderMap::<T>::keys$|Iterator::map$", c)])
 
     if len(ents) == 1 and not ins:
         # idiom 1: result.entry(key).or_default().push(value)
@@ -149,16 +149,71 @@ def r3(ctx):
             else:
                 yield PASS("C11-R3", "normalize_headers/value", "get_mut(name) => push(normalised value), else insert(lower-cased name, vec![normalised value])", [site(b, p[0], "push"), site(b, i_[0], "insert")])
         stores = {p[0], i_[0]}
+    elif not ents and not ins and not ps and len(b.calls(r"HeaderMap::<T>::keys$")) == 1 and len(b.calls(r"HeaderMap::<T>::get_all$")) == 1:
+        # idiom 3: headers.keys().map(|name| (name.as_str().to_lowercase(),
+        #              headers.get_all(name).iter().map(|v| normalize_header_value(v.as_bytes())).collect())).collect()
+        # keys() yields every distinct name once, get_all(name) every value of that name in arrival order; distinct
+        # HeaderNames are distinct lower-case strings, so collecting into the map overwrites nothing.
+        hp = param_by_name(b, "headers")
+        kc, ga = b.calls(r"HeaderMap::<T>::keys$")[0], b.calls(r"HeaderMap::<T>::get_all$")[0]
+        outer = [x for x in b.calls(r"Iterator::collect$") if "std::collections::HashMap<std::string::String, std::vec::Vec<std::vec::Vec<u8>>" in x[1].get("resolved_full", "")]
+        inner = [x for x in b.calls(r"Iterator::collect$") if re.search(r"collect::<std::vec::Vec<std::vec::Vec<u8>>>$", x[1].get("resolved_full", ""))]
+        probs = []
+        tup = None
+        if len(outer) != 1 or len(inner) != 1:
+            probs.append("expected one collect into the map and one into a value list, found %d / %d" % (len(outer), len(inner)))
+        else:
+            so, sto = pipeline_of(b, outer[0][1]["args"][0])
+            sto = [x for x in sto if x[0] != "into_iter"]
+            if not (so and so[0] == "def" and so[1]["kind"] == "call" and so[1]["term"] is kc[1]) or [x[0] for x in sto] != ["map"] or "summary_operand" not in sto[0][2]:
+                probs.append("the map is not collected from headers.keys().map(closure) alone (a filter / take / dedup stage would drop names)")
+            else:
+                td = b.origin_def(sto[0][2]["args"][sto[0][2]["summary_operand"]])
+                if td and td[0] == "def" and td[1]["kind"] == "assign" and td[1]["stmt"]["rv"].get("tuple") and len(td[1]["stmt"]["rv"]["ops"]) == 2:
+                    tup = td[1]["stmt"]["rv"]["ops"]
+                else:
+                    probs.append("the outer closure does not build a (name, values) pair")
+            if b.origin_def(kc[1]["args"][0]) != ("param", hp) or b.origin_def(ga[1]["args"][0]) != ("param", hp):
+                probs.append("keys() / get_all() are not called on the `headers` parameter")
+            si, sti = pipeline_of(b, inner[0][1]["args"][0])
+            sti = [x for x in sti if x[0] != "into_iter"]
+            gi = si[1]["term"] if si and si[0] == "def" and si[1]["kind"] == "call" else None
+            if not (gi and re.search(r"header::GetAll::<'a, T>::iter$", gi["callee"]) and b.origin_def(gi["args"][0]) and b.origin_def(gi["args"][0])[0] == "def" and b.origin_def(gi["args"][0])[1].get("term") is ga[1]):
+                probs.append("the value list is not collected from headers.get_all(name).iter()")
+            if [x[0] for x in sti] != ["map"] or "summary_operand" not in (sti[0][2] if sti else {}):
+                probs.append("the values pass through stages %s (expected exactly .map(closure): a filter / take / rev would drop or reorder values)" % [x[0] for x in sti])
+            elif not is_norm(sti[0][2]["args"][sti[0][2]["summary_operand"]]):
+                probs.append("a stored value is not normalize_header_value(value.as_bytes()) itself")
+        if tup is not None:
+            ks = b.slice_op(tup[0])
+            if not (ks.has_call(LOWER) and ks.has_call(r"HeaderName::as_str$")):
+                probs.append("map key is not the lower-cased header name")
+            vd = b.origin_def(tup[1])
+            if not (vd and vd[0] == "def" and vd[1].get("term") is inner[0][1]) or mutated_in_place(b, moved_chain(b, tup[1])):
+                probs.append("the pair's second component is not the collected value list as it is")
+            # the same name is used for the key and for get_all
+            kn = {l for l in ks.locals} & {l for l in b.slice_op(ga[1]["args"][1]).locals}
+            if not kn:
+                probs.append("get_all is not asked for the name that becomes the key")
+        if probs:
+            yield VIOL("C11-R3", "normalize_headers/value", "keys()/get_all() formulation deviates: " + "; ".join(probs), where=loc(b.j["span"]))
+        else:
+            yield PASS("C11-R3", "normalize_headers/key", "key = name.as_str().to_lowercase() for every name of headers.keys()", [site(b, kc[0], "keys")])
+            yield PASS("C11-R3", "normalize_headers/value", "values = headers.get_all(name).iter().map(normalize_header_value(v.as_bytes())).collect(): every value, arrival order", [site(b, ga[0], "get_all")])
+            yield PASS("C11-R3", "normalize_headers/all-headers", "every name (keys()) and every value of it (get_all) is stored", [])
+        stores = None
     else:
         raise AnchorMissing("result.entry(key) (or the get_mut / insert idiom) in normalize_headers: %d entry, %d insert, %d lookup, %d push" % (len(ents), len(ins), len(lks), len(ps)))
     # every header is stored: every way from the iteration's Some edge back to the loop head passes a store;
     # iteration is over the whole HeaderMap
     its = b.calls(r"HeaderMap::<T>::iter$") + [x for x in b.calls(r"IntoIterator::into_iter$") if re.match(r"^<&http::HeaderMap(<[^>]*>)? as std::iter::IntoIterator>::into_iter$", x[1].get("resolved_full", ""))]
-    it = one(its, "headers.iter()")  # `headers.iter()` or `for .. in headers` on the &HeaderMap: the same iteration
+    it = one(its, "headers.iter()") if stores is not None else None  # `headers.iter()` or `for .. in headers` on the &HeaderMap: the same iteration
     nx = [x for x in b.calls(r"Iterator::next$") if "http::header::map::Iter<" in x[1].get("resolved_full", "")] or [x for x in b.calls(r"Iterator::next$")]
     st = b.term(nx[0][1]["target"]) if nx else None
     some = [bb for v, bb in st["targets"] if v == 1] if st and st["k"] == "switch" else []
-    if not some or nx[0][0] in b._reachable_from(some[0], avoid=stores) or any(r_ in b._reachable_from(some[0], avoid=stores) for r_ in b.return_blocks()) or param_by_name(b, "headers") not in b.slice_op(it[1]["args"][0]).locals:
+    if stores is None:
+        pass  # idiom 3 reported its own all-headers result
+    elif not some or nx[0][0] in b._reachable_from(some[0], avoid=stores) or any(r_ in b._reachable_from(some[0], avoid=stores) for r_ in b.return_blocks()) or param_by_name(b, "headers") not in b.slice_op(it[1]["args"][0]).locals:
         yield VIOL("C11-R3", "normalize_headers/all-headers", "not every header of the request is stored", where=b.span_of_block(sorted(stores)[0]))
     else:
         yield PASS("C11-R3", "normalize_headers/all-headers", "every (name, value) of the HeaderMap is stored, in iteration (arrival) order", [])
